@@ -1,63 +1,282 @@
-import AnySyncModel.Ldiff.Lemmas
+import AnySyncModel.Ldiff.Shape
 /-!
 # C08 — advertised range hashes depend only on current contents
 
 Model: `AnySyncModel/Ldiff/Model.lean` (the fixed code: fix-update, fix-merge, fix-bottomrange).
-The canonical index `canon A p sl` is what `New(df,thr)` + ONE `Set(all…)` builds: the tree
-`buildTop` is a function of the sorted element list only.  The property is
-`step_refines_canon_full` below; what is proved here is listed in `notes/areas/ldiff.md`.
+`canon A S p sl` is what `New(df,thr)` + ONE `Set(all…)` builds: its tree `buildTop` is a function of
+the sorted element list only. The headline theorem `step_refines_canon` says that the index
+maintained incrementally by ANY history of `Set` (new or existing ids) and `RemoveId` (present or
+absent ids) IS the canonical index of its current skip list — shape, counts and digests.
+
+Hypotheses, all explicit: ids determine hashes and hashes are 64-bit (`Op.Wf`); the width
+hypothesis `TopOk` for every intermediate contents (F-ldiff-width: every range that must be divided
+splits properly — for the Go arithmetic this is `goSplit_ok`: true for every range not narrower
+than `df`). The digest algebra `A` and the splitter `S` are arbitrary.
 -/
 namespace AnySync.Ldiff
 
-/-- **Full statement (history independence).**  For every history of single-element `Set`s
-(new or existing ids) and `RemoveId`s whose intermediate contents satisfy the width hypothesis,
-the operational index equals the canonical index of its current skip list: tree shape, counts and
-digests — hence `Hash()` and every `Ranges` answer are functions of the contents. -/
-def C08_step_refines_canon_full : Prop :=
-  ∀ (D : Type) (A : DigAlg D) (df thr : Nat) (ops : List Op),
-    (∀ k, k ≤ ops.length →
-      let ix := (Index.new A df thr).run A (ops.take k)
-      SplitOk ix.p.df 0 (M - 1) ∧ ∀ i, i < ix.p.df →
-        WidthOk ix.p ix.sl depthFuel (childRange 0 (M - 1) ix.p.df i).1 (childRange 0 (M - 1) ix.p.df i).2) →
-    (Index.new A df thr).run A ops = canon A (Params.clamp df thr) ((Index.new A df thr).run A ops).sl
+/-- the skip-list invariant is preserved by every operation -/
+theorem slWf_step (hf : Nat → Nat) (sl : List Elem) (op : Op) (h : SlWf hf sl) (hop : op.Wf hf) :
+    SlWf hf (slStep sl op) := by
+  cases op with
+  | set1 e =>
+    have hp := slInsert_perm e (slRemove e.id sl)
+    constructor
+    · intro e' he'
+      rcases List.mem_cons.mp (hp.mem_iff.mp he') with h1 | h1
+      · rw [h1]; exact hop
+      · exact h.hash e' (mem_slRemove.mp h1).1
+    · have hp' := hp.map (·.id)
+      show (List.map (·.id) (slInsert e (slRemove e.id sl))).Nodup
+      rw [hp'.nodup_iff]
+      simp only [List.map_cons, List.nodup_cons]
+      constructor
+      · intro hm
+        obtain ⟨e', he', hid⟩ := List.mem_map.mp hm
+        exact (mem_slRemove.mp he').2 hid
+      · exact List.Nodup.sublist ((slRemove_sub e.id sl).map _) h.nodup
+  | remove id hh =>
+    constructor
+    · intro e' he'; exact h.hash e' (mem_slRemove.mp he').1
+    · exact List.Nodup.sublist ((slRemove_sub id sl).map _) h.nodup
 
-/-- a fresh index is canonical (base case of the refinement) -/
-theorem new_is_canon {D} (A : DigAlg D) (df thr : Nat) :
-    Index.new A df thr = canon A (Params.clamp df thr) [] := rfl
+/-- **one step of refinement**: applying an operation to the canonical index of `sl` gives the
+canonical index of the new skip list. -/
+theorem step_canon {D} (A : DigAlg D) (S : Splitter) (hf : Nat → Nat) (p : Params)
+    (sl : List Elem) (op : Op) (hwf : SlWf hf sl) (hop : op.Wf hf)
+    (hok : TopOk S p sl) (hok' : TopOk S p (slStep sl op)) :
+    (canon A S p sl).step A S op = canon A S p (slStep sl op) := by
+  cases op with
+  | set1 e =>
+    obtain ⟨heh, hlt⟩ := hop
+    simp only [Index.step, Index.set1, canon, slStep] at hok' ⊢
+    by_cases hhas : slHas e.id sl = true
+    · -- existing id: updEl
+      obtain ⟨e0, he0, hid⟩ := slHas_iff.mp hhas
+      have hw : ∀ e', e' ∈ sl → e'.hash = hf e'.id := fun e' he' => (hwf.hash e' he').1
+      have ho1 : OnlyAt e.hash sl (slRemove e.id sl) := by
+        rw [heh]; exact remove_onlyAt hf sl e.id hw
+      have hout : OnlyAt e.hash sl (slInsert e (slRemove e.id sl)) := by
+        intro a b hx
+        rw [slRange_insert_out e _ a b hx, ho1 a b hx]
+      have hlen : ∀ a b, (slRange (slInsert e (slRemove e.id sl)) a b).length
+          = (slRange sl a b).length := by
+        intro a b
+        by_cases hx : a ≤ e.hash ∧ e.hash ≤ b
+        · rw [slRange_insert_len e _ a b hx]
+          have := remove_count hf sl e0 he0 hw hwf.nodup a b (by rw [hid, ← heh]; exact hx.1)
+            (by rw [hid, ← heh]; exact hx.2)
+          rw [hid] at this
+          exact this
+        · rw [hout a b hx]
+      have hl : (slInsert e (slRemove e.id sl)).length = sl.length := by
+        have h1 := (slInsert_perm e (slRemove e.id sl)).length_eq
+        have h2 := slRemove_len sl e0 hwf.nodup he0
+        rw [hid] at h2
+        simp only [List.length_cons] at h1
+        omega
+      simp only [hhas, if_true]
+      congr 1
+      exact top_step A S p sl _ e.hash id _ hout hlt hok' (by simpa using hl.symm)
+        (fun i hi h1 h2 => updEl_build A S p sl _ e.hash hout hlen depthFuel _ _ h1 h2 (hok'.2 i hi))
+    · -- new id: addEl
+      have hno : ∀ e', e' ∈ sl → e'.id ≠ e.id := by
+        intro e' he' hid
+        exact hhas (slHas_iff.mpr ⟨e', he', hid⟩)
+      have hrm : slRemove e.id sl = sl := slRemove_eq_self e.id sl hno
+      have hfalse : slHas e.id sl = false := by simpa using hhas
+      rw [hrm] at hok' ⊢
+      simp only [hfalse, Bool.false_eq_true, if_false]
+      congr 1
+      have hl : (slInsert e sl).length = sl.length + 1 := by
+        have := (slInsert_perm e sl).length_eq
+        simpa using this
+      exact top_step A S p sl _ e.hash (· + 1) _ (fun a b hx => slRange_insert_out e sl a b hx) hlt hok'
+        hl.symm
+        (fun i hi h1 h2 => addEl_build A S p sl _ e.hash (fun a b hx => slRange_insert_out e sl a b hx)
+          (fun a b ha hb => slRange_insert_len e sl a b ⟨ha, hb⟩) depthFuel _ _ h1 h2 (hok'.2 i hi))
+  | remove id hh =>
+    obtain ⟨heh, hlt⟩ := hop
+    have hw : ∀ e', e' ∈ sl → e'.hash = hf e'.id := fun e' he' => (hwf.hash e' he').1
+    simp only [Index.step, Index.remove, canon, slStep] at hok' ⊢
+    by_cases hhas : slHas id sl = true
+    · obtain ⟨e0, he0, hid⟩ := slHas_iff.mp hhas
+      simp only [hhas, if_true, Option.getD_some]
+      congr 1
+      have hout : OnlyAt hh sl (slRemove id sl) := by rw [heh]; exact remove_onlyAt hf sl id hw
+      have hl := slRemove_len sl e0 hwf.nodup he0
+      rw [hid] at hl
+      exact top_step A S p sl _ hh (· - 1) _ hout hlt hok' (by show sl.length - 1 = (slRemove id sl).length; omega)
+        (fun i hi h1 h2 => by
+          have hcnt : ∀ a b, a ≤ hh → hh ≤ b →
+              (slRange (slRemove id sl) a b).length + 1 = (slRange sl a b).length := by
+            intro a b ha hb
+            have := remove_count hf sl e0 he0 hw hwf.nodup a b (by rw [hid, ← heh]; exact ha)
+              (by rw [hid, ← heh]; exact hb)
+            rw [hid] at this
+            exact this
+          have := rmEl_build A S p sl _ hh hout hcnt (remove_le id sl) depthFuel _ _ h1 h2 (hok.2 i hi)
+          rw [this])
+    · have hno : ∀ e', e' ∈ sl → e'.id ≠ id := by
+        intro e' he' hid
+        exact hhas (slHas_iff.mpr ⟨e', he', hid⟩)
+      have hfalse : slHas id sl = false := by simpa using hhas
+      simp only [hfalse, Bool.false_eq_true, if_false, Option.getD_none]
+      rw [slRemove_eq_self id sl hno]
 
-/-- the canonical tree away from the changed hash is untouched: a sub-range that does not contain
-`x` has the same subtree (shape, counts, digests) before and after any change at `x`. This is the
-locality half of `step_refines_canon` (siblings of the walked path keep their digests). -/
-theorem canon_local {D} (A : DigAlg D) (p : Params) (sl sl' : List Elem) (x : Nat)
+/-- the same for a whole history, from any canonical starting point -/
+theorem run_canon {D} (A : DigAlg D) (S : Splitter) (hf : Nat → Nat) (p : Params) (ops : List Op) :
+    ∀ sl, SlWf hf sl → (∀ op, op ∈ ops → op.Wf hf) →
+      (∀ k, k ≤ ops.length → TopOk S p (slRun sl (ops.take k))) →
+      (canon A S p sl).run A S ops = canon A S p (slRun sl ops) := by
+  induction ops with
+  | nil => intro sl _ _ _; rfl
+  | cons op rest ih =>
+    intro sl hwf hops hok
+    have hop := hops op (by simp)
+    have h0 : TopOk S p sl := by simpa [slRun] using hok 0 (by simp)
+    have h1 : TopOk S p (slStep sl op) := by simpa [slRun] using hok 1 (by simp)
+    simp only [Index.run, slRun, List.foldl_cons]
+    rw [step_canon A S hf p sl op hwf hop h0 h1]
+    apply ih (slStep sl op) (slWf_step hf sl op hwf hop) (fun o ho => hops o (by simp [ho]))
+    intro k hk
+    have := hok (k + 1) (by simp; omega)
+    simpa [slRun] using this
+
+/-- **step_refines_canon (history independence).** For every history from `New(df,thr)` the
+operational index equals the canonical index of its current contents. -/
+theorem step_refines_canon {D} (A : DigAlg D) (S : Splitter) (hf : Nat → Nat) (df thr : Nat)
+    (ops : List Op) (hops : ∀ op, op ∈ ops → op.Wf hf)
+    (hok : ∀ k, k ≤ ops.length → TopOk S (Params.clamp df thr) (slRun [] (ops.take k))) :
+    (Index.new A S df thr).run A S ops = canon A S (Params.clamp df thr) (slRun [] ops) :=
+  run_canon A S hf (Params.clamp df thr) ops [] ⟨by simp, by simp⟩ hops hok
+
+/-- **hash_history_independent / equal_contents_equal_top_hash.** Two histories ending in the same
+skip list advertise the same top hash (what `DiffTypeCheck` compares) … -/
+theorem hash_history_independent {D} (A : DigAlg D) (S : Splitter) (hf : Nat → Nat) (df thr : Nat)
+    (ops₁ ops₂ : List Op) (h₁ : ∀ op, op ∈ ops₁ → op.Wf hf) (h₂ : ∀ op, op ∈ ops₂ → op.Wf hf)
+    (ok₁ : ∀ k, k ≤ ops₁.length → TopOk S (Params.clamp df thr) (slRun [] (ops₁.take k)))
+    (ok₂ : ∀ k, k ≤ ops₂.length → TopOk S (Params.clamp df thr) (slRun [] (ops₂.take k)))
+    (hsame : slRun [] ops₁ = slRun [] ops₂) :
+    ((Index.new A S df thr).run A S ops₁).hash = ((Index.new A S df thr).run A S ops₂).hash := by
+  rw [step_refines_canon A S hf df thr ops₁ h₁ ok₁, step_refines_canon A S hf df thr ops₂ h₂ ok₂, hsame]
+
+/-- **ranges_history_independent.** … and answer every range query identically (hash, count,
+elements), with or without elements. -/
+theorem ranges_history_independent {D} (A : DigAlg D) (S : Splitter) (hf : Nat → Nat) (df thr : Nat)
+    (ops₁ ops₂ : List Op) (h₁ : ∀ op, op ∈ ops₁ → op.Wf hf) (h₂ : ∀ op, op ∈ ops₂ → op.Wf hf)
+    (ok₁ : ∀ k, k ≤ ops₁.length → TopOk S (Params.clamp df thr) (slRun [] (ops₁.take k)))
+    (ok₂ : ∀ k, k ≤ ops₂.length → TopOk S (Params.clamp df thr) (slRun [] (ops₂.take k)))
+    (hsame : slRun [] ops₁ = slRun [] ops₂) (lo hi : Nat) (w : Bool) :
+    ((Index.new A S df thr).run A S ops₁).getRange A S lo hi w
+      = ((Index.new A S df thr).run A S ops₂).getRange A S lo hi w := by
+  rw [step_refines_canon A S hf df thr ops₁ h₁ ok₁, step_refines_canon A S hf df thr ops₂ h₂ ok₂, hsame]
+
+/-- the incrementally maintained index equals the one rebuilt at start-up by ONE `Set(all…)`
+(the oracle of the harness): a single multi-element `Set` is the history of its elements. -/
+theorem rebuilt_equals_incremental {D} (A : DigAlg D) (S : Splitter) (hf : Nat → Nat) (df thr : Nat)
+    (ops : List Op) (es : List Elem)
+    (h₁ : ∀ op, op ∈ ops → op.Wf hf) (h₂ : ∀ op, op ∈ es.map Op.set1 → op.Wf hf)
+    (ok₁ : ∀ k, k ≤ ops.length → TopOk S (Params.clamp df thr) (slRun [] (ops.take k)))
+    (ok₂ : ∀ k, k ≤ (es.map Op.set1).length →
+      TopOk S (Params.clamp df thr) (slRun [] ((es.map Op.set1).take k)))
+    (hsame : slRun [] ops = slRun [] (es.map Op.set1)) :
+    (Index.new A S df thr).run A S ops = (Index.new A S df thr).set A S es := by
+  have hset : (Index.new A S df thr).set A S es = (Index.new A S df thr).run A S (es.map Op.set1) := by
+    simp only [Index.set, Index.run, List.foldl_map]
+    rfl
+  rw [hset, step_refines_canon A S hf df thr ops h₁ ok₁,
+    step_refines_canon A S hf df thr _ h₂ ok₂, hsame]
+
+/-- the skip list stays sorted by `(hash, id)` -/
+theorem slStep_sorted (hf : Nat → Nat) (sl : List Elem) (op : Op) (hs : Sorted sl) :
+    Sorted (slStep sl op) := by
+  cases op with
+  | set1 e =>
+    apply slInsert_sorted e _ (slRemove_sorted e.id sl hs)
+    intro x hx; exact (mem_slRemove.mp hx).2
+  | remove id hh => exact slRemove_sorted id sl hs
+
+theorem slRun_inv (hf : Nat → Nat) (ops : List Op) : ∀ sl, SlWf hf sl → Sorted sl →
+    (∀ op, op ∈ ops → op.Wf hf) → SlWf hf (slRun sl ops) ∧ Sorted (slRun sl ops) := by
+  induction ops with
+  | nil => intro sl h1 h2 _; exact ⟨h1, h2⟩
+  | cons op rest ih =>
+    intro sl h1 h2 hops
+    simp only [slRun, List.foldl_cons]
+    exact ih _ (slWf_step hf sl op h1 (hops op (by simp))) (slStep_sorted hf sl op h2)
+      (fun o ho => hops o (by simp [ho]))
+
+/-- **canon_deterministic**: the skip list — hence the canonical index — is determined by the SET
+of current entries: two histories ending with the same entries end with the same list. -/
+theorem canon_deterministic (hf : Nat → Nat) (ops₁ ops₂ : List Op)
+    (h₁ : ∀ op, op ∈ ops₁ → op.Wf hf) (h₂ : ∀ op, op ∈ ops₂ → op.Wf hf)
+    (hsame : ∀ e, e ∈ slRun [] ops₁ ↔ e ∈ slRun [] ops₂) : slRun [] ops₁ = slRun [] ops₂ := by
+  have e1 := slRun_inv hf ops₁ [] ⟨by simp, by simp⟩ (by simp [Sorted]) h₁
+  have e2 := slRun_inv hf ops₂ [] ⟨by simp, by simp⟩ (by simp [Sorted]) h₂
+  exact sorted_ext _ _ e1.2 e2.2 (nodup_of_map_id _ e1.1.nodup) (nodup_of_map_id _ e2.1.nodup) hsame
+
+/-- **C08, assembled**: two histories (any interleaving of inserts, updates, removals) that end
+with the same set of entries produce the SAME index: same tree, same `Hash()`, same answer to
+every range query. -/
+theorem equal_contents_equal_index {D} (A : DigAlg D) (S : Splitter) (hf : Nat → Nat) (df thr : Nat)
+    (ops₁ ops₂ : List Op) (h₁ : ∀ op, op ∈ ops₁ → op.Wf hf) (h₂ : ∀ op, op ∈ ops₂ → op.Wf hf)
+    (ok₁ : ∀ k, k ≤ ops₁.length → TopOk S (Params.clamp df thr) (slRun [] (ops₁.take k)))
+    (ok₂ : ∀ k, k ≤ ops₂.length → TopOk S (Params.clamp df thr) (slRun [] (ops₂.take k)))
+    (hsame : ∀ e, e ∈ slRun [] ops₁ ↔ e ∈ slRun [] ops₂) :
+    (Index.new A S df thr).run A S ops₁ = (Index.new A S df thr).run A S ops₂ := by
+  rw [step_refines_canon A S hf df thr ops₁ h₁ ok₁, step_refines_canon A S hf df thr ops₂ h₂ ok₂,
+    canon_deterministic hf ops₁ ops₂ h₁ h₂ hsame]
+
+/-- **step_refines_canon for the Go arithmetic** (`goSplit` = `genTupleRanges`/`getBottomRange`
+with fix-bottomrange): the width hypothesis becomes the concrete "no range that must be divided is
+narrower than `df`" (`NoNarrow`, what the harness's `widthSafe` checks), the partition facts are
+proved (`goSplit_ok`). -/
+theorem step_refines_canon_go {D} (A : DigAlg D) (hf : Nat → Nat) (df thr : Nat) (hM : df ≤ M)
+    (ops : List Op) (hops : ∀ op, op ∈ ops → op.Wf hf)
+    (hok : ∀ k, k ≤ ops.length → ∀ i, i < (Params.clamp df thr).df →
+      NoNarrow (Params.clamp df thr) (slRun [] (ops.take k)) depthFuel
+        (childRange 0 (M - 1) (Params.clamp df thr).df i).1
+        (childRange 0 (M - 1) (Params.clamp df thr).df i).2) :
+    (Index.new A goSplit df thr).run A goSplit ops
+      = canon A goSplit (Params.clamp df thr) (slRun [] ops) := by
+  have hdf : 2 ≤ (Params.clamp df thr).df := by simp only [Params.clamp]; split <;> omega
+  have hM' : (Params.clamp df thr).df ≤ M := by
+    simp only [Params.clamp]; split
+    · simp [M]
+    · exact hM
+  exact step_refines_canon A goSplit hf df thr ops hops
+    (fun k hk => topOk_go _ _ hdf hM' (hok k hk))
+
+/-- **genTupleRanges_partition** (re-exported from `Ldiff/Arith.lean`): for `lo ≤ hi < 2^64`,
+`df ≥ 2` and width ≥ `df` the Go loop returns `df` parts that lie inside `[lo,hi]`, and
+`getBottomRange` returns the unique part containing the hash. -/
+theorem genTupleRanges_partition (lo hi df : Nat) (w : Wide lo hi df) :
+    genTupleRanges lo hi df = (List.range df).map (childRange lo hi df) ∧ SplitOk goSplit df lo hi :=
+  ⟨genTupleRanges_eq lo hi df w, goSplit_ok lo hi df w⟩
+
+/-- … the parts are consecutive and non-empty, the first starts at `lo`, the last ends at `hi` -/
+theorem genTupleRanges_consecutive (lo hi df i : Nat) (w : Wide lo hi df) (hi' : i + 1 < df) :
+    (childRange lo hi df (i + 1)).1 = (childRange lo hi df i).2 + 1 ∧
+    (childRange lo hi df 0).1 = lo ∧ (childRange lo hi df (df - 1)).2 = hi :=
+  parts_consecutive lo hi df i w hi'
+
+/-- the range arithmetic of the model is the arithmetic regenerated from `hashrange.go` -/
+theorem arith_shape_ok : type_of% ldiffShape_ok := ldiffShape_ok
+
+/-- the canonical tree away from the changed hash is untouched (locality) -/
+theorem canon_local {D} (A : DigAlg D) (S : Splitter) (p : Params) (sl sl' : List Elem) (x : Nat)
     (hout : OnlyAt x sl sl') (fuel lo hi : Nat) (hx : ¬ (lo ≤ x ∧ x ≤ hi))
-    (hw : WidthOk p sl' fuel lo hi) :
-    build A p sl' fuel lo hi = build A p sl fuel lo hi :=
-  build_out A p sl sl' x hout fuel lo hi hx hw
+    (hw : WidthOk S p sl' fuel lo hi) :
+    build A S p sl' fuel lo hi = build A S p sl fuel lo hi :=
+  build_out A S p sl sl' x hout fuel lo hi hx hw
 
-/-- inserting an element changes the skip list only at its hash … -/
-theorem insert_onlyAt (e : Elem) (sl : List Elem) : OnlyAt e.hash sl (slInsert e sl) :=
-  fun a b h => slRange_insert_out e sl a b h
+/-- a fresh index is canonical (base case) -/
+theorem new_is_canon {D} (A : DigAlg D) (S : Splitter) (df thr : Nat) :
+    Index.new A S df thr = canon A S (Params.clamp df thr) [] := rfl
 
-/-- … and adds exactly one element to every range containing it -/
-theorem insert_count (e : Elem) (sl : List Elem) (a b : Nat) (h1 : a ≤ e.hash) (h2 : e.hash ≤ b) :
-    (slRange (slInsert e sl) a b).length = (slRange sl a b).length + 1 :=
-  slRange_insert_len e sl a b ⟨h1, h2⟩
-
-/-- `calcDividedHash` over the computed child list and over the child function agree -/
-theorem divided_hash_agrees {D} (A : DigAlg D) (df : Nat) (f : Nat → Tree D) :
-    kidsHash A df (ofList ((List.range df).map f)) = listHash A ((List.range df).map f) :=
-  kidsHash_ofList A df f
-
-/-- the answer to a range query is a function of `(p, sl, top)`; for a canonical index therefore a
-function of the contents alone (`ranges_history_independent` given `step_refines_canon`). -/
-theorem ranges_of_canon {D} (A : DigAlg D) (ix : Index D) (h : ix = canon A ix.p ix.sl)
-    (lo hi : Nat) (w : Bool) :
-    ix.getRange A lo hi w = (canon A ix.p ix.sl).getRange A lo hi w := by
-  rw [← h]
-
-/-- non-vacuity: a three-level divided canonical tree (df = 2, thr = 1, three elements sharing
-the two top bits of their hashes) -/
-example : (buildTop (D := Nat) ⟨fun _ => 0, fun _ => 1⟩ ⟨2, 1⟩
-    [⟨0, 1, 0⟩, ⟨1, 2, 0⟩, ⟨2, 2 ^ 61, 0⟩]).cnt = 3 := by decide
+/-- non-vacuity: a concrete history with an update and a removal from a divided chain -/
+example : slRun [] [.set1 ⟨0, 1, 0⟩, .set1 ⟨1, 2, 0⟩, .set1 ⟨0, 1, 5⟩, .remove 1 2]
+    = [⟨0, 1, 5⟩] := by decide
 
 end AnySync.Ldiff
